@@ -222,6 +222,10 @@ def mutate1 (p : Base) (b : Block) (a : List String) : Option Block :=
       | "txnil", some i => (b.txids[i]?).map fun _ => { b with txids := setAt b.txids i [] }
       | "txtrunc", some i => (b.txids[i]?).map fun t => { b with txids := setAt b.txids i t.dropLast }
       | "txcontent", some i => (b.txids[i]?).map fun _ => b
+      | "leafflip", some i =>
+        if i < b.txids.length && b.txids.length ≤ b.carried.length then
+          (b.carried[i]?).map fun v => { b with carried := b.carried.set i (v.map flipLast) }
+        else none
       | "fixlevels", some k =>
         -- the k lowest levels of the carried tree recomputed from the (tampered) body, everything above kept
         let nt := merkleTree sym.H b.txids
@@ -239,6 +243,22 @@ def mutate1 (p : Base) (b : Block) (a : List String) : Option Block :=
       match b.txids[i]?, b.txids[j]? with
       | some x, some y => if i == j then none else some { b with txids := setAt (setAt b.txids i y) j x }
       | _, _ => none
+    | _, _ => none
+  | ["leafswap", si, sj] =>
+    match idx si, idx sj with
+    | some i, some j =>
+      if i < b.txids.length && j < b.txids.length && i != j && b.txids.length ≤ b.carried.length then
+        match b.carried[i]?, b.carried[j]? with
+        | some x, some y => some { b with carried := (b.carried.set i y).set j x }
+        | _, _ => none
+      else none
+    | _, _ => none
+  | ["leafdup", si, sj] =>
+    match idx si, idx sj with
+    | some i, some j =>
+      if i < b.txids.length && j < b.txids.length && i != j && b.txids.length ≤ b.carried.length then
+        (b.carried[j]?).map fun y => { b with carried := b.carried.set i y }
+      else none
     | _, _ => none
   | ["jdrop"] => b.justify.map fun _ => { b with justify := none }
   | ["jadd"] => match b.justify with
